@@ -137,6 +137,7 @@ structure St where
   corrOk : Bool := true
   notes : List String := []
   wfOk : Bool := true
+  mode : CbMode := .both                 -- which callbacks the listener under test was given (`mode` line)
 
 def St.bad (st : St) (s : String) : St :=
   { st with corrOk := false, notes := if st.notes.length < 3 then st.notes ++ [s] else st.notes }
@@ -157,6 +158,8 @@ def stepLine (genCfg specCfg : Cfg) (st : St) (toks : List String) : St :=
     (match pairList st.tbl (if rest.isEmpty then "~" else ",".intercalate rest) with
      | some pairs => beginEv st genCfg specCfg fun cfg => Parse.parseEv cfg (sock == "A") pairs
      | none => st.bad "bad msg line")
+  | ["mode", m] =>
+    { st with mode := if m = "sync" then .sync else if m = "async" then .async else .both }
   | ["drop", ts] => beginEv st genCfg specCfg fun _ => .noise (ts.toInt?.getD 0)
   | ["purge", ts] => beginEv st genCfg specCfg fun _ => .purge (ts.toInt?.getD 0)
   | "pre" :: rest =>
@@ -180,8 +183,8 @@ def stepLine (genCfg specCfg : Cfg) (st : St) (toks : List String) : St :=
      | some sn, some e =>
        let st := if snapFullOf st.tracker == sn then st
          else st.bad s!"snap differs at step {st.trace3.length}: impl {repr sn} model {repr (snapFullOf st.tracker)}"
-       let st := if cbsOf "_source" st.notif == st.cur.cbs then st
-         else st.bad s!"callbacks differ at step {st.trace3.length}: impl {repr st.cur.cbs} model {repr (cbsOf "_source" st.notif)}"
+       let st := if cbsOf "_source" st.mode st.notif == st.cur.cbs then st
+         else st.bad s!"callbacks differ at step {st.trace3.length}: impl {repr st.cur.cbs} model {repr (cbsOf "_source" st.mode st.notif)}"
        let snapJ := sn.devs.map devObsOf
        let noLook : Look S := ⟨false, [], [], none, none⟩
        let cur : C04.Obs S := ⟨st.cur.target, st.cur.pre.getD noLook, st.cur.cbs, st.cur.post.getD noLook⟩
